@@ -128,7 +128,9 @@ static Case gen_case(uint64_t h)
   static const std::vector<std::string> bkg = catalog::background_published(), dbd = catalog::dbd_published();
   static const struct { const char * n; int l, m; } vd[] = {{"Mo100", 0, 1}, {"Mo100", 1, 8}, {"Se82", 0, 4}, {"Nd150", 0, 20}, {"Cd106", 0, 9}, {"Ru96", 0, 12}, {"Zr96", 0, 1}, {"Ca48", 1, 3}, {"Rn222", 0, 1}, {"Xe136", 0, 5}};
   bool isdbd = r.chance(0.5); f.decay_category = isdbd ? "dbd" : "background"; c.nclass = "published";
-  if (isdbd) { int k = r.range(0, 9); f.nuclide = vd[k].n; f.dbd_level = vd[k].l; f.dbd_mode = vd[k].m; if (r.chance(0.3)) f.nuclide = r.pick(dbd), f.dbd_level = 0, f.dbd_mode = 1; }
+  if (isdbd) { int k = r.range(0, 9); f.nuclide = vd[k].n; f.dbd_level = vd[k].l; f.dbd_mode = vd[k].m; if (r.chance(0.3)) f.nuclide = r.pick(dbd), f.dbd_level = 0, f.dbd_mode = 1;
+    // any published isotope with a generated level and mode: whether the combination exists is for the core oracle to say (both must agree)
+    if (r.chance(0.35)) { f.nuclide = r.pick(dbd); f.dbd_level = r.chance(0.6) ? 0 : r.range(1, 4); f.dbd_mode = r.range(1, 20); c.nclass = "generated-level-mode"; } }
   else f.nuclide = r.pick(bkg);
   f.seed = r.chance(0.6) ? r.range(1, 1000000) : (int[]){1, 42, 314159, 2147483647}[r.range(0, 3)];
   c.nev = r.range(1, 4); c.vkind = r.range(0, 2); if (r.chance(0.05)) c.vkind = 3; c.pos = G4ThreeVector(r.uniform(-50, 50), r.uniform(-50, 50), r.uniform(-50, 50));
@@ -144,7 +146,7 @@ static Case gen_case(uint64_t h)
     case 5: if (isdbd) { f.dbd_mode = r.pick(std::vector<int>{0, 25, 26, -1}); c.nclass = "bad-mode"; } break;
     case 6: if (isdbd) { f.dbd_level = r.pick(std::vector<int>{-1, 9, 17, 99}); c.nclass = "bad-level"; } break;
     case 7: if (isdbd) { f.dbd_mode = r.range(1, 24); c.nclass = "other-mode"; } break;
-    case 8: if (isdbd) { f.dbd_min_energy_MeV = 0.5; f.dbd_max_energy_MeV = 1.5; c.nclass = "window"; } break;
+    case 8: if (isdbd) { f.dbd_min_energy_MeV = r.chance(0.3) ? 0.5 : std::round(r.uniform(0.05, 1.5) * 1000) / 1000; f.dbd_max_energy_MeV = r.chance(0.3) ? 1.5 : std::round((f.dbd_min_energy_MeV + r.uniform(0.2, 2.0)) * 1000) / 1000; if (r.chance(0.15)) f.dbd_min_energy_MeV = -1; else if (r.chance(0.15)) f.dbd_max_energy_MeV = -1; c.nclass = "window"; } break;
     case 9: if (isdbd) { f.dbd_min_energy_MeV = 1.5; f.dbd_max_energy_MeV = 0.5; c.nclass = "inverted-window"; } break;
     case 10: f.nuclide = ""; c.nclass = "no-nuclide"; break;
     default: break; // (an invalid MDL label is not among the aspects the property lists: not generated)
